@@ -97,7 +97,7 @@ enum { R_ONE, R_RANGE, R_FROM, R_WRAP, R_ALL, R_ODD, R_EVEN };
 struct range { int kind; int a, b; };
 struct level { int depth; char name[32]; struct range r; };
 enum { LK_ALL, LK_ROOT, LK_SET, LK_OBJ };
-struct loc { char op; /* 0, '~', 'x', '^' */ int kind; hwloc_bitmap_t set; int nlev; struct level lv[3]; char text[160]; };
+struct loc { char op; /* 0, '~', 'x', '^' */ int kind; hwloc_bitmap_t set; int nlev; struct level lv[3]; char text[1200]; };
 
 static void range_text(struct sb *b, const struct range *r)
 {
@@ -363,7 +363,7 @@ static void check_line(const struct topo *tp, const struct optset *o, const stru
     /* -H a.b: the leaves listed are exactly the b-objects that the set touches */
     hwloc_obj_t objs[1024]; int n = touched(t, o->depth2, rc, rn, objs, 1024);
     /* only objects below an a-object that the set touches can be listed */
-    int cnt = 0; if (got[0]) { cnt = 1; for (const char *p = got; *p; p++) if (*p == ' ') cnt++; }
+    int cnt = 0; for (const char *p = got; *p; ) { while (*p == ' ') p++; if (*p) { cnt++; while (*p && *p != ' ') p++; } }   /* a level without objects below a listed parent leaves a trailing separator */
     int expect = 0; for (int i = 0; i < n; i++) { hwloc_obj_t a = objs[i]; while (a && a->depth != o->depth) a = a->parent; if (a) expect++; }
     if (cnt != expect) mc_violation("c20.calc.hier.count", "%s :: hwloc-calc -i '%s' %s <<< '%s' lists %d leaves ('%.120s'), %d objects of the deepest type intersect the set", mc_case_text(), tp->input, o->name, line, cnt, got, expect);
     if (feedback) { sb_puts(feedback, got); sb_putc(feedback, '\n'); }
@@ -750,7 +750,7 @@ static void mutated_locations(const struct topo *tp, uint64_t *idx)
     if (!mc_mine(*idx) || mc_deadline()) continue;
     struct loc l = LOCS[a]; loc_text(&l, 0);
     if (!mc_case("mutations of '%s' on %s", l.text, tp->input)) continue;
-    struct sb in; sb_init(&in); int lines = 0; size_t L = strlen(l.text); char m[200];
+    struct sb in; sb_init(&in); int lines = 0; size_t L = strlen(l.text); char m[1300];
     for (size_t i = 0; i < L; i++) {
       memcpy(m, l.text, i); memcpy(m + i, l.text + i + 1, L - i); if (m[0]) { sb_puts(&in, m); sb_putc(&in, '\n'); lines++; }
       for (unsigned s = 0; s < sizeof(SUB); s++) { if (SUB[s] == l.text[i]) continue; memcpy(m, l.text, L + 1); m[i] = SUB[s]; sb_puts(&in, m); sb_putc(&in, '\n'); lines++; }
@@ -761,7 +761,7 @@ static void mutated_locations(const struct topo *tp, uint64_t *idx)
     if (crashed("hwloc-calc", args, &r, "(mutated locations on stdin)")) {
       /* locate */
       char *copy = strdup(in.s); int n; char **IL = split_lines(copy, &n);
-      for (int i = 0; i < n; i++) { char one[260]; snprintf(one, sizeof(one), "%s\n", IL[i]); struct result r1; run_tool("hwloc-calc", args, one, &r1); if (crashed("hwloc-calc", args, &r1, one)) { result_free(&r1); break; } result_free(&r1); }
+      for (int i = 0; i < n; i++) { char one[1400]; snprintf(one, sizeof(one), "%s\n", IL[i]); struct result r1; run_tool("hwloc-calc", args, one, &r1); if (crashed("hwloc-calc", args, &r1, one)) { result_free(&r1); break; } result_free(&r1); }
       free(IL); free(copy);
     } else { int nl; char **OL = split_lines(r.out, &nl); if (nl != lines) mc_violation("c20.calc.lines", "%s :: %d input lines, %d output lines", mc_case_text(), lines, nl); free(OL); }
     result_free(&r); sb_free(&in);
